@@ -702,7 +702,7 @@ func (r *Run) callFunction(fn *ssa.Function, args []Value, env []Value) Value {
 		r.unsupported("external function without body: %s", key)
 	}
 	if r.eng.summarise[key] || r.eng.summarise[fn.Name()] {
-		if v, ok := r.summarise(func() Value { return r.interpret(fn, args, env) }, key); ok {
+		if v, ok := r.summarise(func() Value { return r.interpret(fn, args, env) }, key, args, env); ok {
 			return v
 		}
 	}
